@@ -794,6 +794,7 @@ class InlineHandlerHelper:
     def __calculate_full_deltas(
         current_token: ReferenceMarkdownToken,
         para_owner: Optional[ParagraphMarkdownToken],
+        split_paragraph_lines: Optional[List[str]],
         delta_line: int,
         repeat_count: int,
     ) -> Tuple[int, int]:
@@ -816,7 +817,17 @@ class InlineHandlerHelper:
             last_line_of_label = ParserHelper.calculate_last_line(
                 current_token.ex_label
             )
-            repeat_count = -(len(last_line_of_label) + 2)
+            # Within a paragraph, the leading whitespace of each line is kept by the
+            # paragraph and is not part of the label.
+            leading_whitespace_length = 0
+            if split_paragraph_lines:
+                assert (
+                    para_owner is not None
+                ), "If we have a paragraph, must have a paragraph token."
+                leading_whitespace_length = len(
+                    split_paragraph_lines[para_owner.rehydrate_index]
+                )
+            repeat_count = -(leading_whitespace_length + len(last_line_of_label) + 2)
         return delta_line, repeat_count
 
     @staticmethod
@@ -1057,7 +1068,11 @@ class InlineHandlerHelper:
                 )
             elif reference_token.label_type == Constants.link_type__full:
                 delta_line, repeat_count = InlineHandlerHelper.__calculate_full_deltas(
-                    reference_token, para_owner, delta_line, repeat_count
+                    reference_token,
+                    para_owner,
+                    split_paragraph_lines,
+                    delta_line,
+                    repeat_count,
                 )
             else:
                 assert reference_token.label_type in (
